@@ -8,7 +8,7 @@ Open Scope N_scope.
 (* ------------------------------------------------------------------ guard clauses
    Each clause excludes one class of WSDLs on which the faithful model (and the
    implementation) departs from `expected`; Proofs/WsdlRefute.v has one witness per clause.
-     1  a soap:header written after the soap:body            (Header serialized after Body)
+     1  (fixed in /repo e18696d: a soap:header written after the soap:body; clause removed)
      2  rpc: output message not named <operation>Response      (response wrapper named after the message)
      3  soapAction=""                                           (SOAPAction header omitted)
      4  (fixed in /repo 06e543e: style declared nowhere; clause removed)
@@ -25,14 +25,6 @@ Open Scope N_scope.
 Definition senv := tenv.
 Definition in_senv (e : senv) (u l : str) : bool :=
   match tenv_get e (u, l) with Some _ => true | None => false end.
-
-Definition header_first (bm : b_msg) : bool :=
-  (fix go (seen_body : bool) (l : list soap_ext) : bool :=
-     match l with
-     | [] => true
-     | SoapBody _ _ _ :: r => go true r
-     | SoapHeader _ _ _ :: r => negb seen_body && go seen_body r
-     end) false (bm_exts bm).
 
 Definition body_parts_of (bm : b_msg) : option str :=
   match the_body bm with Some (_, _, p) => p | None => None end.
@@ -57,8 +49,7 @@ Definition op_findings (e : senv) (d : definitions) (b : binding) (po : pt_opera
   match bo_input bo, pto_input po, bo_output bo, pto_output po with
   | Some bi, Some pi, Some bo', Some po' =>
       clause_list
-        [(1%nat, header_first bi && header_first bo');
-         (2%nat, negb rpc || ostr_eqb (resolve_local d (ptm_ns po') (ptm_message po')) (Some (bo_name bo ++ s_Response)));
+        [(2%nat, negb rpc || ostr_eqb (resolve_local d (ptm_ns po') (ptm_message po')) (Some (bo_name bo ++ s_Response)));
          (3%nat, negb (ostr_eqb (obind (bo_soap bo) so_action) (Some [])));
          (5%nat, rpc || (forallb element_part (selected_of d bi pi) && forallb element_part (selected_of d bo' po')));
          (6%nat, negb rpc || (forallb (fun p => negb (element_part p)) (selected_of d bi pi)
